@@ -253,7 +253,7 @@ void gp_utf32_to_utf8(
 {
     ((GPStringHeader*)*u8 - 1)->length = 0;
     size_t i = 0;
-    for (; gp_str_length(*u8) < gp_str_capacity(*u8); ++i)
+    for (; gp_str_length(*u8) + 4 <= gp_str_capacity(*u8); ++i) // room for any codepoint
     { // Manually inlined gp_utf8_decode() is faster for some reason.
         if (i >= u32_length)
             return;
@@ -285,7 +285,7 @@ void gp_utf32_to_utf8(
     }
 
     size_t required_capacity = gp_str_length(*u8);
-    for (size_t j = i; j < gp_arr_length(u32); ++j)
+    for (size_t j = i; j < u32_length; ++j)
     {
         if (u32[j] > 0x7F)
         {
@@ -400,7 +400,7 @@ void gp_utf16_to_utf8(
 {
     ((GPStringHeader*)*u8 - 1)->length = 0;
     size_t i = 0;
-    for (; gp_str_length(*u8) < gp_str_capacity(*u8); ++i)
+    for (; gp_str_length(*u8) + 4 <= gp_str_capacity(*u8); ++i) // room for any codepoint
     {
         if (i >= u16_length)
             return;
@@ -433,7 +433,7 @@ void gp_utf16_to_utf8(
     }
 
     size_t required_capacity = gp_str_length(*u8);
-    for (size_t j = i; j < gp_arr_length(u16); ++j)
+    for (size_t j = i; j < u16_length; ++j)
     {
         if (u16[j] > 0x7F)
         {
